@@ -324,16 +324,30 @@ impl<'de> De<'de> {
             // out (the medium legitimately withholds them), but a *real* entry withheld because the
             // reader's own `fields` list does not name it stays listed as delivered: if that makes
             // the read fail, it is the code's inconsistency, not a fault.
+            let declared = |d: &Deliver| -> bool {
+                match (d, filter) {
+                    (Deliver::Unknown(fi), Some(f)) => match &self.env.faults[*fi as usize] {
+                        // an injected key that the reader itself lists (an alias it declares) does arrive
+                        RFault::Unknown { key, .. } => f.contains(&key.as_str()),
+                        _ => false,
+                    },
+                    _ => false,
+                }
+            };
             let seen: Vec<Deliver> = match filter {
-                Some(_) => order.iter().copied().filter(|d| matches!(d, Deliver::Orig(_))).collect(),
+                Some(_) => order.iter().copied().filter(|d| matches!(d, Deliver::Orig(_)) || declared(d)).collect(),
                 None => order.clone(),
             };
             st.opened.push((self.path, seen));
         }
         if let Some(f) = filter {
+            let faults = self.env.faults;
             order.retain(|d| match d {
                 Deliver::Orig(i) => f.contains(&entries[*i as usize].0.as_str()),
-                Deliver::Unknown(_) => false,
+                Deliver::Unknown(fi) => match &faults[*fi as usize] {
+                    RFault::Unknown { key, .. } => f.contains(&key.as_str()),
+                    _ => false,
+                },
             });
         }
         match self.env.cfg.framing {
